@@ -389,6 +389,22 @@ def OptEntry.relevant (e : OptEntry) : Bool := e.option != .hint || e.write
 
 def OptEntry.key (e : OptEntry) : Nat × Opt := (e.mid, e.option)
 
+/-- one probe of the option matrix with TWO options present: `a` (opted out with `ignore_feature`
+    or not) and `b` (never opted out); what is observed is whether `b` is still rejected -/
+structure OptPair where
+  mid : Nat
+  a : Opt
+  b : Opt
+  write : Bool
+  aOptedOut : Bool
+  disp : OptDisp
+  deriving DecidableEq, Repr
+
+/-- `b` is an option whose loss matters on this method -/
+def OptPair.relevant (e : OptPair) : Bool := e.b != .hint || e.write
+
+def OptPair.key (e : OptPair) : Nat × Opt := (e.mid, e.b)
+
 /-! ## `not_implemented.py` -/
 
 /-- `_IGNORED_FEATURES` -/
@@ -418,5 +434,14 @@ def raiseForFeature (fs : Features) (f : String) : GuardResult :=
 /-- the guard the methods use: `if value: raise_for_feature(feature, …)` -/
 def optionGuard (fs : Features) (f : String) (given : Bool) : GuardResult :=
   if given then raiseForFeature fs f else .passes
+
+/-- several guards one after the other, each an independent `if` (as in `_apply_update`,
+    `_delete`, `count_documents`): `(feature, given)` in the order of the code -/
+def guardSeq (fs : Features) : List (String × Bool) → GuardResult
+  | [] => .passes
+  | (f, given) :: rest =>
+    match optionGuard fs f given with
+    | .passes => guardSeq fs rest
+    | r => r
 
 end MongoModel.Vocab
